@@ -7,6 +7,7 @@ toolchain go1.23.5
 require (
 	github.com/atombender/go-jsonschema v0.0.0
 	github.com/go-viper/mapstructure/v2 v2.1.0
+	github.com/goccy/go-yaml v1.16.0
 	github.com/mitchellh/go-wordwrap v1.0.1
 	github.com/sanity-io/litter v1.5.8
 	golang.org/x/tools v0.29.0
